@@ -100,6 +100,37 @@ NA = {
  'C02': 'parse fidelity is an equality between runtime byte strings and the wire over a grammar of inputs; no clause of it is visible in the shape of the code, and a static proxy would be a frozen fragment (DESIGN.md §4.2)',
 }
 
+# clauses added in the second half of the build round (appended to the entries above; DESIGN.md §4 has the detail)
+ADD = {
+ 'C01': dict(technique='abstract interpretation over the zone domain (difference-bound matrices: thresholds widening on back edges, delayed join at switch dispatch, partition by flag locals, parameter ranges of static functions) classifying 405 subscripts incl. fixed-size arrays and out-parameter views; bounded-copy rule on linear forms for every memcpy-family call; loop-carried overwrite rule for owning slots',
+             text='Also decided: every memcpy / memmove / strncpy / snprintf-family copy fits its destination (capacity from the array type, sizeof of the same type, or the closest dominating allocation; linear forms plus zone facts; 27 of 33 decided, the rest UNKNOWN); no loop can come back to a store `slot = alloc()` with the slot still holding the previous allocation. Subscript figures today: 405 classified, 365 PROVED, 0 REFUTED, 40 UNKNOWN (36 in the LZMA SDK hash tables).'),
+ 'C03': dict(technique='pairing rule for the carry buffer pointer and its size; sentinel-safe byte loads (type rule)',
+             text='Also decided: the carry-buffer pointer and its size change together on every path; every byte stored into an integer that is compared with -1 is loaded as unsigned char.'),
+ 'C04': dict(technique='path rule with flag replay for the interim-100 arm; linear-form agreement between the ring guard and both element reads',
+             text='Also decided: an interim 100 without body headers always returns to the status-line state (never completes the transaction); htp_list_array_get / replace address slot (first + idx) mod max_size (linear forms).'),
+ 'C05': dict(technique='thorough tier: finite typestate abstract interpretation of both drivers and every state function with a monitor automaton, both directions exhausted (676 + 509 between-call abstract states)',
+             text='Thorough tier: callback order and nothing-after-COMPLETE for all inputs, chunkings and callback return values in the abstract system; five non-included behaviours are recorded findings (D19, D26a-d), each replayed.'),
+ 'C06': dict(technique='forward must-pass pairing of every consume-cursor advance with message-length accounting',
+             text='Also decided: in every body state each direct advance of the consume cursor by A is paired with *_message_len advancing by A before the function is left or the cursor advances again.'),
+ 'C07': dict(technique='path enumeration with flag replay for the decompression-disabled configuration; loop-carried-counter rule',
+             text='Also decided: with response decompression disabled no decompressor is created except for the documented user override; the counters compared with the layer limits are initialised before the token loop.'),
+ 'C09': dict(technique='thorough tier: typestate clause over all reachable abstract states', text='Thorough tier: in every reachable abstract state with status ERROR / STOP / TUNNEL a driver call runs no callback of that direction.'),
+ 'C12': dict(technique='interprocedural hex-offset summaries against dominating isxdigit tests; loop-iteration rules for the UTF-8 scanners; flag-sensitive must-analysis for cursor progress',
+             text='Also decided: hex validation covers exactly the bytes each decoder reads; the UTF-8 byte counter restarts at every character boundary; every iteration of a scanning loop advances the read cursor (two reviewed bounded stalls tabled).'),
+ 'C13': dict(technique='effect summary (writes through a parameter, transitively) for the raw components; path-wise evaluation of pointers and lengths as linear forms for split completeness',
+             text='Also decided: the window over the target is not handed out by address; the normaliser never writes the raw components; for every memchr split of the authority the bytes in front of the delimiter (or the whole window) end up in a component on every path - D29 found by this rule, replayed and repaired. Partition of the target outside the authority remains undecided.'),
+ 'C14': dict(technique='sibling agreement of the stores to the pending header line; must-pass rule in finalisation; exactness of look-ahead guards',
+             text='Also decided: the kept part-header line is trimmed whichever way it arrived (D28 found, replayed, repaired); finalisation replays set-aside bytes or knows there are none (D30 found, replayed, repaired); every text part becomes a parameter; look-ahead guards of the escape handling are exact.'),
+ 'C15': dict(technique='sentinel-safe byte loads (type rule)', text='Also decided: the scanner reads bytes as unsigned char before comparing with the -1 end-of-chunk sentinel.'),
+ 'C16': dict(technique='pairing of the status-line state with the progress reset; thorough tier typestate clause',
+             text='Also decided: every return of the response parser to the status-line state resets response_progress, so an interim response does not release the CONNECT wait gate.'),
+ 'C17': dict(technique='must-pass rule for computed cursor positions; path rule for the integer parser tail; loop-structure rule for the NUL-insensitive comparator',
+             text='Also decided: a computed position is stored into a ring cursor only after its wrap test; the whitespace-tolerant integer parser returns the number only with the cursor at the end; the NUL-insensitive comparator skips trailing NULs of its first operand before comparing lengths.'),
+}
+for _p, _a in ADD.items():
+    CHECKS[_p]['technique'] += '; ' + _a['technique']
+    CHECKS[_p]['text'] += ' ' + _a['text']
+
 def main():
     checks = []
     for pid in ALL:
